@@ -13,7 +13,7 @@ RULE = ("Hypothesis-generated synthetic rulesets; EVERY pre-terminal of the mode
         "create_guesses with process stdout captured; lines are compared as a Counter with the model-side expansion, the "
         "returned count with the number of lines, and the loaded groups with the model's groups (value -> probability). "
         "Markov pre-terminals are compared with an independent OMEN enumerator, including rulesets whose levels have tied "
-        "probabilities, and also right after an expansion of a Markov pre-terminal on the same grammar object that a limit cut short. Non-trivial = product of group sizes >= 2 and an alpha word not at position 0, or adjacent alpha "
+        "probabilities, and also right after an expansion of a Markov pre-terminal on the same grammar object that a limit cut short. Ordinary pre-terminals are also expanded with drawn guess limits inside, at and past their size (count == lines, lines are combinations). Non-trivial = product of group sizes >= 2 and an alpha word not at position 0, or adjacent alpha "
         "words, or a Markov level with >= 2 strings; distinct = hash of (model, pre-terminal).")
 ASSUMPTIONS = ["values within one variable are unique (as the trainer guarantees)",
                "a 'U' in a mask means str.upper() of that one character (which may be longer than one character, e.g. ß -> SS)"]
@@ -93,6 +93,21 @@ def prop(case, rec):
                             f'(missing {list((Counter(want) - Counter(lines)).items())[:4]}, extra {list((Counter(lines) - Counter(want)).items())[:4]})', case)
         if cnt != len(lines):
             raise Violation('count', f'pre-terminal {pt}: reported {cnt} guesses, wrote {len(lines)} lines', case)
+        # the same pre-terminal cut short by a guess limit (what --limit does when N falls inside it): the reported count is
+        # still the number of lines written, and the lines are still combinations of the groups
+        for ls in case.get('limits') or []:
+            if n < 2:
+                break
+            k = 1 + ls % (n - 1) if ls >= 0 else n + (-ls - 1)          # inside the pre-terminal; negative seeds: at or past its end
+            ll, lc = guard(case, guesser.capture_guesses, g, list(pt), limit=k)
+            rec.cls('limited_expansion')
+            if toks[-1][0] != 'C' and len(vs[toks[-1]][pt[-1][1]][1]) >= 2:
+                rec.cls('limit_inside_last_group' if k % len(vs[toks[-1]][pt[-1][1]][1]) else 'limit_on_group_boundary')
+            if lc != len(ll):
+                raise Violation('count_limited', f'pre-terminal {pt} with limit {k}: reported {lc} guesses, wrote {len(ll)} lines {ll[:6]}', case)
+            if len(ll) != min(k, n) or Counter(ll) - Counter(want):
+                raise Violation('limited_expansion', f'pre-terminal {pt} with limit {k}: wrote {len(ll)} lines, expected {min(k, n)} of its {n} guesses; '
+                                f'not among them or too often: {list((Counter(ll) - Counter(want)).items())[:4]}', case)
     # Markov pre-terminals: exactly the strings of the level(s) of the group, as loaded
     if any(s == 'M' for s, _ in m['base']) and om is not None:
         loaded = g.grammar.get('M', [])
@@ -145,7 +160,8 @@ def cases(draw, max_pt):
     m = draw(S.rulesets(max_pt=max_pt, markov='no' if mk == 'no' else 'yes', tied_levels=(mk == 'tied'),
                         families=['dyadic', 'tenths', 'count', 'float', 'tiny']))
     hist = [draw(st.integers(0, 2)), draw(st.integers(0, 50))] if mk != 'no' and draw(st.booleans()) else None
-    return {'model': m, 'skip_case': draw(st.integers(0, 4)) == 0, 'markov_history': hist}
+    return {'model': m, 'skip_case': draw(st.integers(0, 4)) == 0, 'markov_history': hist,
+            'limits': draw(st.lists(st.integers(-2, 40), max_size=2))}
 
 
 def run_main(rec, seed, shard, nshards, tier):
